@@ -91,6 +91,19 @@ def probe_kernels(path):
             fn(arr(rec["genotype"], np.int64), int(rec["k"]), arr(rec["haplotypes"], np.int8), f(rec["reads"]).reshape(len(rec["reads"]), len(rec["haplotypes"][0]), -1),
                arr(rec["counts"], np.int64), float(rec["inbreeding"]), l, p, pr, fr, None)
             got = pr
+        elif kind in ("ped_gibbs", "ped_mh"):
+            X = arr(rec["X"], np.int64)
+            ploidy = arr(rec["ploidy"], np.int64)
+            parents = arr(rec["parents"], np.int64)
+            children = pmcmc.sample_children_matrix(parents)
+            mp = X.shape[1]
+            reads = np.array([[[[np.nan if v is None else v for v in row] for row in rd] for rd in smp] for smp in rec["reads"]], dtype=np.float64)
+            z = lambda: np.zeros(mp, dtype=np.int64)
+            fn = pmcmc.gibbs_probabilities if kind == "ped_gibbs" else pmcmc.metropolis_hastings_probabilities
+            got = fn(int(rec["target"]), int(rec["allele"]), X, ploidy, parents, children, arr(rec["tau"], np.int64), arr(rec["lambda"], np.float64),
+                     arr(rec["error"], np.float64), reads, arr(rec["counts"], np.int64), arr(rec["haplotypes"], np.int8), arr(rec["log_frequencies"], np.float64),
+                     None, z(), z(), z(), z(), z(), z(), z(), np.zeros(mp))
+            got = np.array(got)
         elif kind == "swap_acc":
             got = np.array([chain_swap_acceptance(*[float(v) for v in rec["args"]])])
         else:
